@@ -339,10 +339,12 @@ func (rb *RecBackend) Pass(gs *pokerface.GameState) (*pokerface.GameState, error
 // ---------------------------------------------------------------------------------------------
 
 type Rig struct {
-	te      pokertable.TableEngine
-	hk      *pokertable.VerifHooks
-	be      Backend
-	setting pokertable.TableSetting
+	te            pokertable.TableEngine
+	hk            *pokertable.VerifHooks
+	be            Backend
+	listenerDwell time.Duration // time the action listener takes (set before the hand starts)
+	gone          atomic.Bool   // the history is over: the backend answers nothing any more (abandon)
+	setting       pokertable.TableSetting
 
 	mu          sync.Mutex
 	snaps       []*pokertable.Table // clones taken inside OnTableUpdated, in emission order
@@ -355,11 +357,109 @@ type Rig struct {
 	setups      []string
 }
 
+// ----- guard: a history that is over takes its backend away -----
+//
+// The engine of a finished (or abandoned) history lives on in the child process with its timers: the open-game gate fires
+// by itself after 2 s, a hand's ready group completes by itself after its timeout.  If the harness had to abandon the
+// history in a state the generator never produces on purpose (a starved harness, the gate opening a hand under a
+// between-hands departure — D7), the hand that settles seconds later panics inside the engine's goroutine and takes the
+// process, and some unrelated history, with it.  Once a history is over nothing its engine does is judged, so its backend
+// answers every call with an error from then on: no hand is created, moved on or closed any more.
+
+var errAbandoned = errors.New("history over: backend withdrawn")
+
+type guardBackend struct {
+	Backend
+	gone *atomic.Bool
+}
+
+func (g guardBackend) CreateGame(opts *pokerface.GameOptions) (*pokerface.GameState, error) {
+	if g.gone.Load() {
+		return nil, errAbandoned
+	}
+	return g.Backend.CreateGame(opts)
+}
+func (g guardBackend) ReadyForAll(gs *pokerface.GameState) (*pokerface.GameState, error) {
+	if g.gone.Load() {
+		return nil, errAbandoned
+	}
+	return g.Backend.ReadyForAll(gs)
+}
+func (g guardBackend) PayAnte(gs *pokerface.GameState) (*pokerface.GameState, error) {
+	if g.gone.Load() {
+		return nil, errAbandoned
+	}
+	return g.Backend.PayAnte(gs)
+}
+func (g guardBackend) PayBlinds(gs *pokerface.GameState) (*pokerface.GameState, error) {
+	if g.gone.Load() {
+		return nil, errAbandoned
+	}
+	return g.Backend.PayBlinds(gs)
+}
+func (g guardBackend) Next(gs *pokerface.GameState) (*pokerface.GameState, error) {
+	if g.gone.Load() {
+		return nil, errAbandoned
+	}
+	return g.Backend.Next(gs)
+}
+func (g guardBackend) Pay(gs *pokerface.GameState, chips int64) (*pokerface.GameState, error) {
+	if g.gone.Load() {
+		return nil, errAbandoned
+	}
+	return g.Backend.Pay(gs, chips)
+}
+func (g guardBackend) Fold(gs *pokerface.GameState) (*pokerface.GameState, error) {
+	if g.gone.Load() {
+		return nil, errAbandoned
+	}
+	return g.Backend.Fold(gs)
+}
+func (g guardBackend) Check(gs *pokerface.GameState) (*pokerface.GameState, error) {
+	if g.gone.Load() {
+		return nil, errAbandoned
+	}
+	return g.Backend.Check(gs)
+}
+func (g guardBackend) Call(gs *pokerface.GameState) (*pokerface.GameState, error) {
+	if g.gone.Load() {
+		return nil, errAbandoned
+	}
+	return g.Backend.Call(gs)
+}
+func (g guardBackend) Allin(gs *pokerface.GameState) (*pokerface.GameState, error) {
+	if g.gone.Load() {
+		return nil, errAbandoned
+	}
+	return g.Backend.Allin(gs)
+}
+func (g guardBackend) Bet(gs *pokerface.GameState, chips int64) (*pokerface.GameState, error) {
+	if g.gone.Load() {
+		return nil, errAbandoned
+	}
+	return g.Backend.Bet(gs, chips)
+}
+func (g guardBackend) Raise(gs *pokerface.GameState, chipLevel int64) (*pokerface.GameState, error) {
+	if g.gone.Load() {
+		return nil, errAbandoned
+	}
+	return g.Backend.Raise(gs, chipLevel)
+}
+func (g guardBackend) Pass(gs *pokerface.GameState) (*pokerface.GameState, error) {
+	if g.gone.Load() {
+		return nil, errAbandoned
+	}
+	return g.Backend.Pass(gs)
+}
+
+// abandon withdraws the backend: called when the history is over (completed, dropped or hung)
+func (r *Rig) abandon() { r.gone.Store(true) }
+
 func NewRig(setting pokertable.TableSetting, be Backend, interval int) (*Rig, error) {
 	r := &Rig{be: be, setting: setting}
 	opts := pokertable.NewTableEngineOptions()
 	opts.GameContinueInterval = interval
-	r.te = pokertable.NewTableEngine(opts, pokertable.WithGameBackend(be))
+	r.te = pokertable.NewTableEngine(opts, pokertable.WithGameBackend(guardBackend{be, &r.gone}))
 	r.hk = pokertable.VerifHooksOf(r.te)
 	r.te.OnTableUpdated(func(t *pokertable.Table) {
 		// the engine hands out its live table; another goroutine may be mutating it while we marshal
@@ -385,6 +485,11 @@ func NewRig(setting pokertable.TableSetting, be Backend, interval int) (*Rig, er
 		r.mu.Lock()
 		r.actions = append(r.actions, a)
 		r.mu.Unlock()
+		// a listener that takes a moment: whatever the engine reads from the live hand after publishing the action is read
+		// from a hand that may have moved on by itself (D28: the fold round)
+		if r.listenerDwell > 0 {
+			time.Sleep(r.listenerDwell)
+		}
 	})
 	r.te.OnAutoGameOpenEnd(func(c, t string) {
 		r.mu.Lock()
